@@ -9,7 +9,10 @@ RULE = ("Agg.tla: definitions over Sel(s) / PairSel, the one-pass fold machine, 
         "FoldPrefix, PermInvariant (all permutations), NullTransparent; every case is replayed into the AggValidBasic / "
         "AggValidExt / AggBasic entry points over NaN-coded, None-coded, integer series and owned / borrowed / option-view "
         "sources, and again with the series measured in other units (Laws3.tla: homogeneity checked by TLC, degree table "
-        "emitted; 1.3e-4, 123467.8, 4e8 for i32, 1.5e18 for i64)")
+        "emitted; 1.3e-4, 123467.8, 4e8 for i32, 1.5e18 for i64); the fold primitives vfold / vfold_n / vapply / vapply_n / "
+        "vfold2 are bound by the sequence of closure calls (FoldCalls = the valid elements, in order) and n_add / n_prod / "
+        "kh_sum / min_with / max_with by their folds (FoldPrimitives); float series holding +-infinity as valid elements "
+        "(InfAggOf, InfLaws: no finite bound stands in for an infinite extreme)")
 
 
 def run(ctx):
@@ -26,9 +29,13 @@ def run(ctx):
     # tie-heavy samples of length 4..7 (thorough ..9) over {-1, 0, 1}: moments that hit special values exactly
     rt = ctx.tlc("agg-ties", "MCAgg", "MCAgg_ties.cfg" if q else "MCAgg_ties_thorough.cfg", workers=12, timeout=3000)
     ctx.harness("agg-ties", binp, ["replay-agg", "--in", rt["emitted"]] + laws)
+    # float series holding +-infinity (valid elements): InfAggOf and InfLaws, replayed on f64 / f32 / Option cells
+    ri = ctx.tlc("agg-inf", "MCAgg", "MCAgg_inf.cfg" if q else "MCAgg_inf_thorough.cfg", workers=8, timeout=3000)
+    ctx.harness("agg-inf", binp, ["replay-agg", "--in", ri["emitted"]])
     ctx.assumptions += BASE_ASSUMPTIONS + [
         "AggBasic (null-unaware) twins are checked on null-free input only (DESIGN 5.9)",
         "skewness / kurtosis of a constant sample are unspecified (DESIGN 5.6); the mean of an empty masked selection with "
         "min_periods 0 is unspecified",
-        "the fold machine is bound through its final state only (the code exposes no intermediate fold state)",
+        "the fold machine is bound through its final state and through the closure calls of the fold primitives",
+        "a sum over a series that holds both infinities has no value (left open); moments of series with infinities are not specified",
     ]
